@@ -338,3 +338,56 @@ Example C07_read_failure_locked :
     map (fun e => (e_owner e, e_ik e, e_ref e)) (persisted s) = [(0, 0%N, 0%N); (2, 7%N, 9%N)] /\
     v_iks s = [] /\ v_refs s = [] /\ v_locks s = [] /\ v_queue s = [].
 Proof. exact e2_read_failure_locked. Qed.
+
+(* ---- graceful shutdown (AClose / ACloseOk) -------------------------------------------------------------------------- *)
+(* Commander.Close(): [AClose] is state-wise [ACrash]; [ACloseOk] is [APersistOk] followed by [ACrash] (the batch inside
+   the store call is written, nobody is acknowledged, the queue is dropped).  Both are actions of [reachable]: C07_once,
+   C07_same_outcome and every theorem above hold across closes and in the generations after them.
+   The key / reference / revert reservations, the account locks and the lock queue are gone with the generation: *)
+Theorem C07_close_frees_reservations : forall s a s', a = AClose \/ a = ACloseOk -> step s a = Some s' ->
+  v_iks s' = [] /\ v_refs s' = [] /\ v_revs s' = [] /\ v_locks s' = [] /\ v_queue s' = [].
+Proof. exact e2_close_frees. Qed.
+Print Assumptions C07_close_frees_reservations.
+
+(* what a close writes: [AClose] nothing, [ACloseOk] exactly the batch inside the store call (queued entries are dropped) *)
+Theorem C07_close_writes_only_the_batch : forall s s',
+  (step s AClose = Some s' -> persisted s' = persisted s) /\
+  (step s ACloseOk = Some s' -> exists b, v_batch s = Some b /\ persisted s' = persisted s ++ b).
+Proof. exact e2_close_disk. Qed.
+Print Assumptions C07_close_writes_only_the_batch.
+
+(* non-vacuity, from [init] by computation.  (1) request 2 (create, key 7, reference 9) has appended its entry, which is
+   QUEUED behind the batch of request 1 inside the store call; [ACloseOk] writes the batch of request 1 and drops the
+   queue: requests 1 and 2 are answered [RCrashed], no entry with key 7 is on disk, nothing is published, the tables
+   are empty; a NEW request 3 with key 7 and reference 9 in the next generation commits: exactly one entry carries
+   key 7 / reference 9.  (2) the keyed entry is IN the batch written by [ACloseOk]: request 2 is answered [RCrashed]
+   but its entry is on disk; the retry REPLAYS it ([ROk] with the stored transaction id [Some 1]), writes nothing:
+   still exactly one entry. *)
+Example C07_close_then_retry :
+  (exists s0 s1 s th1 th2 th3,
+     run init (e2_rf_fund ++ e2_close_busy 1 ++ e2_close_79 2) = Some s0 /\
+     option_map (map e_owner) (v_batch s0) = Some [1] /\ map (fun e => (e_owner e, e_ik e, e_ref e)) (v_pending s0) = [(2, 7%N, 9%N)] /\
+     v_iks s0 = [7%N] /\ v_refs s0 = [9%N] /\
+     run init (e2_rf_fund ++ e2_close_busy 1 ++ e2_close_79 2 ++ [ACloseOk]) = Some s1 /\
+     map (fun e => (e_owner e, e_ik e, e_ref e)) (persisted s1) = [(0, 0%N, 0%N); (1, 0%N, 0%N)] /\
+     count_where (fun e => N.eqb (e_ik e) 7) (persisted s1) = 0 /\
+     v_pending s1 = [] /\ v_batch s1 = None /\ v_iks s1 = [] /\ v_refs s1 = [] /\ gen s1 = S (gen s0) /\
+     published s1 = published s0 /\
+     run init (e2_rf_fund ++ e2_close_busy 1 ++ e2_close_79 2 ++ [ACloseOk] ++ e2_full79 3) = Some s /\
+     get_thread (threads s) 1 = Some th1 /\ get_thread (threads s) 2 = Some th2 /\ get_thread (threads s) 3 = Some th3 /\
+     t_req th3 = t_req th2 /\ rq_ik (t_req th2) = 7%N /\ rq_ref (t_req th2) = 9%N /\
+     t_resp th1 = Some RCrashed /\ t_resp th2 = Some RCrashed /\ t_resp th3 = Some (ROk (Some 2)) /\
+     map (fun e => (e_owner e, e_ik e, e_ref e)) (persisted s) = [(0, 0%N, 0%N); (1, 0%N, 0%N); (3, 7%N, 9%N)] /\
+     count_where (fun e => N.eqb (e_ik e) 7) (persisted s) = 1 /\
+     count_where (fun e => N.eqb (e_ref e) 9) (persisted s) = 1 /\ v_iks s = [] /\ v_refs s = []) /\
+  (exists s1 s th2 th3,
+     run init (e2_rf_fund ++ e2_close_79 2 ++ [ACloseOk]) = Some s1 /\
+     map (fun e => (e_owner e, e_ik e, e_ref e, e_txid e)) (persisted s1) = [(0, 0%N, 0%N, Some 0); (2, 7%N, 9%N, Some 1)] /\
+     v_iks s1 = [] /\ v_refs s1 = [] /\
+     run init (e2_rf_fund ++ e2_close_79 2 ++ [ACloseOk] ++ AStart 3 e2_pay79 :: e2_rs 3 2) = Some s /\
+     get_thread (threads s) 2 = Some th2 /\ get_thread (threads s) 3 = Some th3 /\ t_req th3 = t_req th2 /\
+     t_resp th2 = Some RCrashed /\ t_resp th3 = Some (ROk (Some 1)) /\ t_entry th3 = None /\
+     persisted s = persisted s1 /\ v_pending s = [] /\ v_batch s = None /\
+     count_where (fun e => N.eqb (e_ik e) 7) (persisted s) = 1 /\
+     count_where (fun e => N.eqb (e_ref e) 9) (persisted s) = 1 /\ v_iks s = [] /\ v_refs s = []).
+Proof. exact e2_close_then_retry. Qed.
